@@ -36,6 +36,9 @@ K19 = [
     # function body, if body, except handler, try-else and finally
     (Skeleton("r05_statement_patterns", {"main.py": "def fun({0}):\n    {1} = 0\n    try:\n        {2} = {0} + 1\n    except ValueError:\n        {1} = 0\n    else:\n        {2} = 0\n        print({2})\n    finally:\n        {1} = 0\n        print({1})\n    if {0}:\n        {2} = 0\n    return {1}\nprint(fun(1))\n"}),
      [("${x} = 0", "${x} = 0"), ("${x} = 0\nprint(${x})", "${x} = 0\nprint(${x})"), ("return ${v}", "return ${v}"), ("${x} = ${y} + 1", "${x} = 1 + ${y}")]),
+    # instances in parameter defaults (def and lambda) and in a with header
+    (Skeleton("r06_defaults_and_with_items", {"main.py": "import contextlib\n{0} = 2\ndef fun({1}={0} * 3):\n    with contextlib.nullcontext({0} * 3) as {2}:\n        return {1} + {2}\nprint(fun(), (lambda {2}={0} * 3: {2})())\n"}),
+     [("${x} * 3", "3 * ${x}")]),
     (Skeleton("r04_multiline_operand", {"main.py": "{0} = 1\n{1} = 2\n{2} = ({0} +\n     {1}) * ({1}\n     - {0})\nprint({2})\n"}),
      [("${x} * ${y}", "${y} * ${x}"), ("${x} + ${y}", "${x} + ${y}")]),
 ]
@@ -148,6 +151,8 @@ def make_restructure(p, identity):
     def post(before, after, op):
         if identity and ast.dump(ast.parse(before["main.py"])) != ast.dump(ast.parse(after["main.py"])):
             return "identity_changes_tree", "goal == pattern changed the syntax tree: %r -> %r" % (before["main.py"], after["main.py"])
+        if not identity:
+            return c19_oracle.unreplaced(before["main.py"], after["main.py"], pattern, goal)
         return "ok", ""
 
     def run():
